@@ -60,7 +60,7 @@ EXHAUSTIVE_ONLY = False
 
 
 def budget(tier):
-    return dict(shards=16, examples=75 if tier == 'quick' else 1500)
+    return dict(shards=16, examples=75 if tier == 'quick' else 1200)
 
 
 # ------------------------------------------------------------------------------------------ stub runtime
